@@ -75,6 +75,10 @@ func Drive(o DriverOpts) int {
 	}
 	cfg.Env = append(append([]string{}, cfg.Env...), "VERIF_DIR="+o.VerifDir)
 	outDir := filepath.Join(o.VerifDir, "out", o.Prop)
+	for i, e := range cfg.Env {
+		cfg.Env[i] = strings.ReplaceAll(e, "{OUT}", outDir)
+	}
+	_ = 0
 	os.RemoveAll(outDir)
 	os.MkdirAll(outDir, 0o755)
 	os.MkdirAll(filepath.Join(o.VerifDir, "evidence"), 0o755)
